@@ -31,3 +31,5 @@ pub mod c13_weighted;
 pub mod c14_compose;
 #[cfg(feature = "c15")]
 pub mod c15_order;
+#[cfg(feature = "c18")]
+pub mod c18_generators;
